@@ -365,3 +365,40 @@ func HarnessC10Round() {
 		sym.Cover("catch-all followed by further text")
 	}
 }
+
+var c10Segs = []string{"", "a", "{x}", "{}", "*{w}", "*{}", "a{x}", "a*{w}", "{x}a", "*{w}a", "{x", "*", "*w}", "{x}{y}", "{xyz}", "*{xyz}", "a}"}
+var c10Hosts = []string{"", "b", "a.b", "{h}.b", "a.{h}", "{}.b", "a..b", "-a.b", "a-.b", "1.2", "a.*{h}", "{h}{g}.b", "a.b.", ".a"}
+
+// HarnessC10Segments: patterns assembled from whole segments (reaches patterns far longer than the
+// byte-wise bound): acceptance == grammar, under the three limit configurations.
+func HarnessC10Segments(st any) {
+	s := st.(*c10State)
+	k := sym.Param("k")
+	p := c10Hosts[sym.Choose("host", len(c10Hosts))]
+	for i := 0; i < k; i++ {
+		p += "/" + c10Segs[sym.Choose("seg"+string(rune('0'+i)), len(c10Segs))]
+	}
+	if sym.Bool("trailing") {
+		p += "/"
+	}
+	if k == 0 && len(p) == 0 {
+		return
+	}
+	rte, err := s.r.NewRoute(p, noopHandler)
+	want := refGrammar(p, s.mp, s.mk)
+	switch want.v {
+	case gDontCare:
+		return
+	case gAccept:
+		sym.Cover("segments: accepted")
+		sym.Assert(err == nil && rte != nil, "pattern valid per grammar must be accepted (segment-built)")
+		if err == nil {
+			sym.Assert(rte.ParamsLen() == want.wildcards && rte.Hostname()+rte.Path() == p, "accessors consistent (segment-built)")
+		}
+	default:
+		sym.Cover("segments: rejected")
+		sym.Assert(err != nil && errors.Is(err, fox.ErrInvalidRoute), "pattern invalid per grammar must be rejected with ErrInvalidRoute (segment-built)")
+	}
+}
+
+func SetupC10Segments() any { return SetupC10Parse() }
